@@ -1,4 +1,4 @@
-"""Translation unit: the closure-free token functions of flussab-cnf/src/token.rs -> Gen/CnfTokenGen.lean.
+"""Translation unit: the token functions of flussab-cnf/src/token.rs -> Gen/CnfTokenGen.lean.
 
 State: `LR` (LineReader over the view), monad `PM` (Model/LineReader.lean).  Calls into the core crate
 are mapped to the *models* of those functions, which are themselves tied to the source:
@@ -12,10 +12,31 @@ Encoding of results: `Parsed<T, ParseError>` is `Option T` (`Fallthrough` = none
 value but the thrown final outcome, so functions returning `ParseError` have type `PM α`);
 `Parsed<T, String>` (the number tokens: the error is the numeral's text) is `Option (Option Int)`.
 
-The functions built from closures and `Parsed` combinators (`var_count`, `uint_count`, `clause_group`,
-`clause_lits`, `non_terminating_linebreaks`, `interactive_end_of_line`, `unexpected`) are not translated
-yet: they stay tied by the correspondence runs only.
+Closures and `flussab::Parsed` combinators (`PMUnit.pm_closures`, the conventions of tools/unit_aigertoken.py):
+  errors         a `ParseError` is the thrown final outcome: `Result<T, ParseError>` is `PM T` (`Ok(v)` is `v`,
+                 `Err(e)` is `e`, `r?` is `r`); `input.give_up(msg)` / `give_up_at(pos, msg)` -> `PM.giveUp` /
+                 `PM.giveUpAt pos`; messages are not modelled (`&str` / `String` are `Unit`, `format!` is `()`,
+                 its arguments are evaluated except for plain selections between string literals).
+  combinators    applied to the *value* of the receiver and the translated closure body
+                 (Model/CnfTokenExt.lean: hand-written contracts of flussab/src/parser.rs):
+                   p.or_parse(|| q)        CnfTokenExt.orParse p do q
+                   p.or_give_up(|| e)      CnfTokenExt.orGiveUp p do e
+                   p.map_err(|s| e)        CnfTokenExt.mapErr p fun s => do e        (p : Parsed<T, String>)
+                   p.and_also(|&mut v| r)  CnfTokenExt.andAlso p fun v => do r
+                   p.matches()             (p).isSome        p.optional()   p
+                 A `return` inside a closure body leaves the closure (a nested Lean `do` block).
+  generic instances   `uint(input)` / `int(input)` / `braced_uint(input)` are called with an inferred type
+                 argument; the instance is fixed per caller (`instances`): the result type of `var_count` /
+                 `clause_group` makes it `usize`, in `uint_count::<T>` it is `T`.  Values of these instances stay
+                 integers (`Int`, as in the generic functions): Rust type `T` in the emitter.
+  `L: Dimacs`    a function generic over the literal type takes `(l : Cnf.LitTy)`; `L::MAX_DIMACS` is
+                 `l.maxDimacs` (an `isize`), `x as usize` of an `isize` is `CnfTokenExt.isizeAsUsize`.
+  skipped functions that are called from translated ones are replaced by their hand models
+                 (`unexpected` -> `Cnf.unexpected`, `exceeds_var_count` -> `Cnf.exceedsVarCount`); these stay
+                 tied by the correspondence runs only.
+Still not translated: `clause_lits` (see `skip`).
 """
+import re
 from unitbase import *
 
 
@@ -139,28 +160,284 @@ class PMUnit(Unit):
         })
 
 
+    # ------------------------------------------------------------------ closures and Parsed combinators
+    def pm_closures(self, ext, modelled):
+        """Handlers for `ParseError` as the thrown outcome and for the `flussab::Parsed` combinators applied to
+        closures (the conventions of tools/unit_aigertoken.py).  `ext`: Lean namespace of the combinator
+        contracts; `modelled`: rust name of a skipped function -> (Lean term of its hand model, result type,
+        "!" = never returns)."""
+        u = self
+        self.state_methods = dict(self.state_methods)
+        self.functions = dict(self.functions)
+        self.value_methods = dict(self.value_methods)
+        self.macros = dict(self.macros)
+
+        # ---------------------------------------------------------------- errors
+        def give_up(em, e, env, hint):
+            cs = em.cargs(e[3], env, ["str"])
+            return Code("()", "!", [p for c in cs for p in c.pre] + ["PM.giveUp"])
+
+        def give_up_at(em, e, env, hint):
+            cs = em.cargs(e[3], env, ["usize", "str"])
+            return Code("()", "!", [p for c in cs for p in c.pre] + [f"PM.giveUpAt {paren(cs[0].val)}"])
+
+        self.state_methods["give_up"] = give_up
+        self.state_methods["give_up_at"] = give_up_at
+
+        def str_choice(a):
+            """`"a"` or `if c { "a" } else { "b" }` with a variable `c`: selects a message fragment only."""
+            if a[0] == "str":
+                return True
+            if a[0] == "if" and a[1][0] == "path" and a[3] is not None:
+                return all(b[0] == "block" and not b[1] and b[2] is not None and b[2][0] == "str" for b in (a[2], a[3]))
+            return False
+
+        def fmt(em, e, env):
+            # format!(..): the message is not modelled; its arguments are evaluated (they must translate)
+            pre = []
+            for a in (e[2] or [])[1:]:
+                if not str_choice(a):
+                    pre += em.cexpr(a, env).pre
+            return Code("()", "String", pre)
+
+        self.macros["format"] = fmt
+
+        def res_ok_of(h):
+            if h and h.startswith("Result<"):
+                return h[len("Result<"):].split(",")[0].strip()
+            return None
+
+        def ok(em, e, env, hint):
+            return em.cexpr(e[2][0], env, res_ok_of(hint))
+
+        def err(em, e, env, hint):
+            c = em.cexpr(e[2][0], env)
+            if c.ty != "!":
+                raise TErr(f"{u.name}::{env.fn.name}: Err(..) of something that is not a give_up / error function")
+            return c
+
+        self.functions["Ok"] = ok
+        self.functions["Err"] = err
+
+        def try_(em, e, env, hint):
+            c = em.cexpr(e[1], env, hint)
+            if c.ty == "!":
+                return c
+            ok_ty = res_ok_of(c.ty)
+            if ok_ty is None or not c.ty.endswith(", ParseError>"):
+                raise TErr(f"{u.name}::{env.fn.name}: `?` on a {c.ty}")
+            return Code(c.val, ok_ty, c.pre)
+
+        self.try_handler = try_
+
+        # ---------------------------------------------------------------- calls of hand-modelled functions
+        def modelled_call(rust):
+            lean, ty = modelled[rust]
+
+            def h(em, e, env, hint):
+                # arguments: `input`, strings, and values that only select the message
+                pre = []
+                for a in e[2]:
+                    if em.is_state(a, env):
+                        continue
+                    pre += em.cexpr(a, env).pre
+                if ty == "!":
+                    return Code("()", "!", pre + [lean])
+                t = env.fresh()
+                return Code(t, ty, pre + [f"let {t} ← {lean}"])
+            return h
+
+        for r in modelled:
+            self.functions[r] = modelled_call(r)
+
+        # ---------------------------------------------------------------- Parsed combinators with closures
+        def parsed_args(ty):
+            if ty and ty.startswith("Parsed<") and ty.endswith(">"):
+                parts = [p.strip() for p in ty[len("Parsed<"):-1].split(",")]
+                if len(parts) == 2:
+                    return parts
+            return None
+
+        def is_closure(a, nparams):
+            return a[0] == "closure" and len(a[1]) == nparams
+
+        def closure_param(cl, env, ty):
+            par = cl[1][0]
+            while par[0] == "pref":
+                par = par[1]
+            if par[0] != "pbind":
+                raise TErr("closure parameter pattern")
+            sub = env.child()
+            ln = lname(par[1])
+            sub.vars[par[1]] = (ln, ty)
+            return sub, ln
+
+        def closure_body(em, body, env, want=None):
+            lines = em.cvalue(body if body[0] == "block" else ("block", [], body, False), env)
+            ty = em._last_value_ty
+            if want == "!" and ty != "!":
+                raise TErr(f"{u.name}::{env.fn.name}: closure expected to produce a ParseError produces {ty}")
+            return lines, ty
+
+        def combinator(name, nparams):
+            def match(e):
+                return e[0] == "mcall" and e[2] == name and len(e[3]) == 1 and is_closure(e[3][0], nparams)
+            return match
+
+        is_or_give_up, is_or_parse = combinator("or_give_up", 0), combinator("or_parse", 0)
+        is_map_err, is_and_also = combinator("map_err", 1), combinator("and_also", 1)
+
+        def or_give_up(em, e, env, hint):
+            if not is_or_give_up(e):
+                return None
+            p = em.cexpr(e[1], env)
+            pa = parsed_args(p.ty)
+            if not pa or pa[1] != "ParseError":
+                raise TErr(f"{u.name}::{env.fn.name}: or_give_up on {p.ty}")
+            body, _ = closure_body(em, e[3][0][2], env.child(), "!")
+            t = env.fresh()
+            return Code(t, f"Result<{pa[0]}, ParseError>", p.pre + [f"let {t} ← {ext}.orGiveUp {paren(p.val)} do", body])
+
+        def or_parse(em, e, env, hint):
+            if not is_or_parse(e):
+                return None
+            p = em.cexpr(e[1], env)
+            pa = parsed_args(p.ty)
+            if not pa or pa[1] != "ParseError":
+                raise TErr(f"{u.name}::{env.fn.name}: or_parse on {p.ty}")
+            body, ty = closure_body(em, e[3][0][2], env.child())
+            if ty != p.ty:
+                raise TErr(f"{u.name}::{env.fn.name}: or_parse of a {p.ty} with a closure producing {ty}")
+            t = env.fresh()
+            return Code(t, p.ty, p.pre + [f"let {t} ← {ext}.orParse {paren(p.val)} do", body])
+
+        def map_err(em, e, env, hint):
+            if not is_map_err(e):
+                return None
+            p = em.cexpr(e[1], env)
+            pa = parsed_args(p.ty)
+            if not pa or pa[1] != "String":
+                raise TErr(f"{u.name}::{env.fn.name}: map_err on {p.ty}")
+            sub, ln = closure_param(e[3][0], env, "String")
+            body, _ = closure_body(em, e[3][0][2], sub, "!")
+            t = env.fresh()
+            return Code(t, f"Parsed<{pa[0]}, ParseError>",
+                        p.pre + [f"let {t} ← {ext}.mapErr {paren(p.val)} fun {ln} => do", body])
+
+        def and_also(em, e, env, hint):
+            if not is_and_also(e):
+                return None
+            p = em.cexpr(e[1], env)
+            pa = parsed_args(p.ty)
+            if not pa or pa[1] != "ParseError":
+                raise TErr(f"{u.name}::{env.fn.name}: and_also on {p.ty}")
+            sub, ln = closure_param(e[3][0], env, pa[0])
+            body, ty = closure_body(em, e[3][0][2], sub)
+            if ty not in ("()", "!"):
+                raise TErr(f"{u.name}::{env.fn.name}: and_also closure of type {ty}")
+            t = env.fresh()
+            return Code(t, p.ty, p.pre + [f"let {t} ← {ext}.andAlso {paren(p.val)} fun {ln} => do", body])
+
+        def simple(em, e, env, hint):
+            # p.matches() / p.optional() on a Parsed<T, ParseError>
+            if not (e[0] == "mcall" and e[2] in ("matches", "optional") and not e[3]):
+                return None
+            p = em.cexpr(e[1], env)
+            pa = parsed_args(p.ty)
+            if not pa or pa[1] != "ParseError":
+                raise TErr(f"{u.name}::{env.fn.name}: {e[2]}() on {p.ty}")
+            if e[2] == "matches":
+                return Code(f"({p.val}).isSome", "Result<bool, ParseError>", p.pre)
+            return Code(p.val, f"Result<Option<{pa[0]}>, ParseError>", p.pre)
+
+        self.chain_handlers = list(self.chain_handlers) + [or_give_up, or_parse, map_err, and_also, simple]
+        self.types.update({"Result<(), ParseError>": "Unit", "Result<bool, ParseError>": "Bool"})
+
+
 class CnfTokenUnit(PMUnit):
     name = "cnftoken"
     file = "flussab-cnf/src/token.rs"
     impl = None
     out = "CnfTokenGen.lean"
     namespace = "Flussab.Gen.CnfToken"
-    imports = ["Flussab.Model.PMExt"]
+    imports = ["Flussab.Model.CnfTokenExt"]
     skip = {
-        "interactive_end_of_line": "closure + Parsed combinator (or_parse)",
         "unexpected": "builds a message from up to 60 bytes (Vec, format!); modelled by `Cnf.unexpected`",
         "exceeds_var_count": "formats a message (impl Display argument); modelled by `Cnf.exceedsVarCount`",
-        "var_count": "closures + Parsed combinators",
-        "uint_count": "closures + Parsed combinators",
-        "clause_group": "closures + Parsed combinators",
-        "non_terminating_linebreaks": "closures + Parsed combinators",
-        "clause_lits": "closures + Parsed combinators",
+        "clause_lits": "out-parameter `lits: &mut Vec<L>` that is assigned (`clear`, `push`) inside the `and_then` closure, "
+                       "which also contains the `while` loop: closures are translated to Lean `fun`s, which cannot assign "
+                       "variables of the enclosing function, the emitter has no out-parameters besides the state, and a "
+                       "loop is lifted to a definition whose `Ctl.ret` carries the *function's* result while `return` in "
+                       "the closure leaves only the closure; also `(-limit..=limit).contains(&lit)` and `L::from_dimacs`; "
+                       "modelled by `Cnf.clauseLits` (which returns the literals)",
     }
     rename = {"fixed": "fixedTok", "word": "wordTok", "newline": "newlineTok"}
+    # hand models of skipped functions: rust name -> (Lean term, result type; "!" = never returns)
+    modelled = {
+        "unexpected": ("Cnf.unexpected", "!"),
+        "exceeds_var_count": ("Cnf.exceedsVarCount", "!"),
+    }
+    # type argument of the generic number tokens, per calling function (inferred by rustc from the caller's
+    # result type / from the comparison with a `usize` / `isize` parameter)
+    instances = {
+        ("var_count", "uint"): "Cnf.usizeTy",
+        ("uint_count", "uint"): "t",
+        ("clause_group", "braced_uint"): "Cnf.usizeTy",
+    }
+    # the comment / newline loop: every iteration that does not leave the loop consumes at least one byte
+    fuel = {"non_terminating_linebreaks": "(← PMExt.getLR).v.rest.length + 1"}
+    dimacs_binder = "(l : Cnf.LitTy)"
 
     def __init__(self):
         super().__init__()
         self.pm_common()
+        self.pm_closures("CnfTokenExt", self.modelled)
+        self.extra_binders = {}
+        self.types.update({
+            "Parsed<usize, ParseError>": "Option Int", "Parsed<T, ParseError>": "Option Int", "isize": "Int",
+        })
+        self.consts["L::MAX_DIMACS"] = ("l.maxDimacs", "isize")
+        self.casts = dict(self.casts)
+        self.casts[("isize", "usize")] = "(CnfTokenExt.isizeAsUsize {})"
+        u = self
+
+        def instance(em, e, env, hint):
+            short = e[1][1][-1]
+            inst = u.instances.get((env.fn.name, short))
+            if inst is None:
+                raise TErr(f"cnftoken::{env.fn.name}: call of the generic `{short}` with an unknown type argument")
+            if not em.is_state(e[2][0], env) or len(e[2]) != 1:
+                raise TErr(f"`{short}` is expected to be called on `input`")
+            t = env.fresh()
+            return Code(t, "Parsed<T, String>", [f"let {t} ← {u.lean_name(short)} {inst}"])
+
+        for g in {s for (_, s) in self.instances}:
+            self.functions[g] = instance
+
+        def max_value(em, e, env, hint):
+            return Code("t.maxVal", "T")
+
+        self.functions["T::max_value"] = max_value
+
+    # ------------------------------------------------------------------ source normalisation
+    @property
+    def fns(self):
+        return self._fns
+
+    @fns.setter
+    def fns(self, d):
+        # `fn f<L: Dimacs>`: the literal type is the parameter `(l : Cnf.LitTy)` (not an `IntTy`)
+        for f in d.values():
+            if f.generics and re.fullmatch(r"<\s*L\s*:\s*Dimacs\s*>", f.generics.strip()):
+                f.generics = None
+                self.extra_binders[f.name] = self.dimacs_binder
+        self._fns = d
+
+    def local_fn(self, short, path):
+        # calls of the generic number tokens: the instance is chosen by `instances`
+        if any(s == short for (_, s) in self.instances):
+            return None
+        return super().local_fn(short, path)
 
 
 UNIT = CnfTokenUnit
